@@ -67,6 +67,9 @@ struct UpState {
     /// Harm to apply to the next infrastructure (DS / DNSKEY) response.
     infra_harm: Option<Harm>,
     infra_harm_applied: u32,
+    /// The harm skips this many infrastructure queries first (so that it
+    /// meets the second or third request of a walk, not always the first).
+    infra_harm_skip: u32,
     infra_queries: u32,
     world: usize,
     /// Answer `. DNSKEY` with the attacker's key set.
@@ -314,7 +317,12 @@ impl SendRequest<RequestMessage<Vec<u8>>> for Upstream {
             let (world, h) = {
                 let mut g = st.lock().unwrap();
                 g.infra_queries += 1;
-                (g.world, g.infra_harm.take())
+                if g.infra_harm.is_some() && g.infra_harm_skip > 0 {
+                    g.infra_harm_skip -= 1;
+                    (g.world, None)
+                } else {
+                    (g.world, g.infra_harm.take())
+                }
             };
             let w = &worlds()[world];
             ev!("upstream asked {} {}", qname, qtype);
@@ -688,6 +696,7 @@ async fn run(_tier: Tier) {
         {
             let mut g = up.st.lock().unwrap();
             g.infra_harm = infra_harm;
+            g.infra_harm_skip = if infra_harm.is_some() { sim::draw("harm.infra_skip", 3) as u32 } else { 0 };
             g.infra_harm_applied = 0;
             g.infra_queries = 0;
         }
